@@ -17,7 +17,8 @@ in; corr_C12 cross-checks its ElementTree-based extractor against it (a self-tes
 "Risky features" — schema-conformant shapes on which the pinned reader is known or suspected to differ
 from a standard parser — are only produced on request (`feature=`), one per document, so that every
 violation is attributable: one-signer (F11), one-response-bundle (F12), timestamp (F13),
-equal-expiration (F8), space-in-attrless-start-tag, space-in-end-tag, gt-in-attribute-value.
+equal-expiration / equal-times (F8), space-in-attrless-start-tag, gt-in-attribute-value
+(and space-in-end-tag, which is outside the property's plain form and used by C13 only).
 """
 
 from __future__ import annotations
@@ -203,10 +204,11 @@ def gen_doc(
     small: bool = False,
 ) -> dict[str, Any]:
     """One request / response.  Counts follow the property: 1..9 bundles, 1..3 keys, 1..3 signatures,
-    0..3 signers, 1..3 algorithms — except that the two counts on which the pinned reader is known to
-    fail (exactly one Signer, exactly one ResponseBundle) are only produced by `feature=`."""
+    0..3 signers, 1..3 algorithms.  (Exactly one Signer / exactly one ResponseBundle — findings F11 / F12,
+    repaired — occur in the ordinary streams too; corr_C12 recognises them in the data, so a regression is
+    still reported under its own key.)"""
     if nbundles is None:
-        lo = 1 if kind == "request" else 2
+        lo = 1
         nbundles = r.randrange(lo, 4) if small else r.randrange(lo, 10)
     if feature == "one-response-bundle":
         nbundles = 1
@@ -227,15 +229,17 @@ def gen_doc(
     for i in range(nbundles):
         inc = start + i * 10 * DAY + r.choice([0, 0, 3600 * SEC, 500_000])
         exp = inc + r.randrange(14, 22) * DAY + r.choice([0, 0, 86399 * SEC])
-        if feature == "equal-expiration" and i == 1:
+        if feature in ("equal-expiration", "equal-times") and i == 1:
             exp = exps[0]
-        while exp in exps and not (feature == "equal-expiration" and i == 1):
+            if feature == "equal-times":
+                inc = bundles[0]["inception"]
+        while exp in exps and not (feature in ("equal-expiration", "equal-times") and i == 1):
             exp += SEC
         exps.append(exp)
         nk = r.randrange(1, 4)
         key_ids = r.sample(pool, nk)
         ns = r.randrange(1, 4)
-        nsigners = r.choice([0, 0, 2, 3]) if kind == "request" else 0
+        nsigners = r.choice([0, 0, 1, 2, 3]) if kind == "request" else 0
         if feature == "one-signer" and i == 0:
             nsigners = 1
         bundles.append(
@@ -248,7 +252,7 @@ def gen_doc(
                 "signatures": [gen_sig(r, r.choice(key_ids), inc - r.choice([0, DAY]), exp) for _ in range(ns)],
             }
         )
-    if feature == "equal-expiration" and nbundles < 2:
+    if feature in ("equal-expiration", "equal-times") and nbundles < 2:
         raise ValueError("equal-expiration needs two bundles")
     # bundles appear in a random document order (the reader sorts requests by expiration)
     doc: dict[str, Any] = {
